@@ -86,6 +86,25 @@ func scnReserveBind(name string) *world.Scenario {
 	return s
 }
 
+// one application holds two reservations (one per node) when a required-node ask of another application takes one of
+// the nodes over
+func scnReserveTwo(name string) *world.Scenario {
+	s := scnReserve(name)
+	s.Nodes = []world.NodeSpec{{ID: "n1", Cap: world.M(3)}, {ID: "n2", Cap: world.M(3)}}
+	s.Asks = []world.AskSpec{
+		{Key: "x1", App: "app1", Res: world.M(2), Create: 1001},
+		{Key: "x2", App: "app1", Res: world.M(2), Create: 1002},
+		{Key: "y1", App: "app1", Res: world.M(2), Create: 1003},
+		{Key: "y2", App: "app1", Res: world.M(2), Create: 1004},
+		{Key: "r1", App: "app2", Res: world.M(2), Create: 1005, RequiredNode: "n1", Prio: 5},
+	}
+	s.Deny = nil
+	s.Alphabet = []string{"SCHEDULE", "ASK", "RELEASE", "CONFIRM", "NODE_REMOVE"}
+	s.Prefix = []world.Op{op("NODE_ADD", "n1"), op("NODE_ADD", "n2"), op("APP_ADD", "app1"), op("APP_ADD", "app2"), op("ASK", "x1"), op("SCHEDULE"), op("ASK", "x2"), op("SCHEDULE"),
+		op("ASK", "y1"), op("ASK", "y2")}
+	return s
+}
+
 // restart from Completing in a leaf with max applications 1 below a parent with max applications 2
 func scnMaxAppsRestart(name string) *world.Scenario {
 	s := scnMaxApps(name, confMaxAppsLeaf, appsMaxApps)
@@ -120,6 +139,7 @@ func init() {
 	mc.Register(&mc.ScenarioDef{Scn: scnGangSparse("gang-sparse-cap"), Monitors: []mc.Monitor{monC01()}})
 	mc.Register(&mc.ScenarioDef{Scn: scnReserveBind("reserve-bind-si"), Monitors: []mc.Monitor{monC04()}})
 	mc.Register(&mc.ScenarioDef{Scn: scnReserveBind("reserve-bind"), Monitors: []mc.Monitor{monC09()}})
+	mc.Register(&mc.ScenarioDef{Scn: scnReserveTwo("reserve-two"), Monitors: []mc.Monitor{monC09()}})
 	mc.Register(&mc.ScenarioDef{Scn: scnMaxAppsRestart("maxapps-restart"), Monitors: []mc.Monitor{monC11()}})
 	mc.Register(&mc.ScenarioDef{Scn: scnLifecycleLate("lifecycle-late"), Monitors: []mc.Monitor{monC10()}})
 }
